@@ -105,7 +105,7 @@ def link(linker, d, line, W, out):
 
 def run(ctx):
     r = ctx.rng
-    n = 50 if ctx.quick else 1000
+    n = 50 if ctx.quick else 350
     reqs, impl, inputs = [], [], []
     for i in range(n):
         W, files = gen(r)
@@ -137,6 +137,11 @@ def run(ctx):
         out = os.path.join(d, "out.ld")
         rc, o, e = link("ld", d, line, W, out)
         v = c02.canon_impl(files, rc, e, out)
+        if v == "err:undef" and not impl[i].startswith("err") and any(f["kind"] == "ar" for f in files):
+            # GNU ld scans archives left to right: a member that only a LATER object needs is not extracted and ld reports an
+            # undefined symbol; wild (like lld) is position independent here (C03). Not a --wrap difference.
+            ctx.count("oracle", "skipped-ld-archive-position")
+            continue
         if v != impl[i] and not v.startswith("err:other"):
             ctx.cov["impl_oracle_failures"] += 1
             # known: --wrap=S with no __wrap_S anywhere: GNU ld reports __wrap_S undefined, wild binds to S
